@@ -177,7 +177,7 @@ def make_prec_sandbox(root, file_settings):
         if v == "absent":
             continue
         if s == "project":
-            tg[m[s]] = {"A": "./projA", "B": "./projB", "missing": "./nope"}[v]
+            tg[m[s]] = {"A": "./projA", "B": "./projB", "missing": "./projA/src/lib.rs/inner" if (sum(map(ord, json.dumps(file_settings, sort_keys=True))) % 2) else "./nope"}[v]
         elif s == "output":
             tg[m[s]] = {"A": "./outA", "B": "./outB"}[v]
         elif s == "library":
@@ -194,7 +194,8 @@ def make_prec_sandbox(root, file_settings):
 def flags_args(flags):
     a = []
     if flags["project"] != "absent":
-        a += ["-p", {"A": "./projA", "missing": "./nope", "D": "./src-tauri"}[flags["project"]]]
+        a += ["-p", {"A": "./projA", "missing": "./projB/src/lib.rs/inner" if (sum(map(ord, json.dumps(flags, sort_keys=True))) % 2) else "./nope",
+                     "D": "./src-tauri"}[flags["project"]]]
     if flags["output"] != "absent":
         a += ["-o", {"A": "./outA", "D": "./src/generated"}[flags["output"]]]
     if flags["library"] != "absent":
@@ -291,13 +292,16 @@ def part_c(d):
     n = 0
     for target in ("project_conf", "given_conf", "custom_new", "custom_existing_forced"):
         for library in ("none", "zod", "yup", "ZOD", ""):
-            for project in ("present", "missing"):
+            for project in ("present", "missing", "missing_below_file", "missing_dangling_link"):
                 n += 1
                 root = os.path.join(d, "init-%d" % n)
                 files = {"src-tauri/src/lib.rs": rustgen.PRELUDE + "#[tauri::command]\npub fn hello() {}\n",
                          "src-tauri/tauri.conf.json": doc, "cfgdir/tauri.conf.json": doc, "cfgdir/old.json": "{\"old\": true}\n"}
                 rustgen.write_project(root, files)
-                ppath = "./src-tauri" if project == "present" else "./missing"
+                ppath = {"present": "./src-tauri", "missing": "./missing", "missing_below_file": "./src-tauri/src/lib.rs/src",
+                         "missing_dangling_link": "./dangling"}[project]
+                files["dangling"] = "SYMLINK:./nowhere"
+                rustgen.write_project(root, {"dangling": files["dangling"]})
                 args = ["init", "-p", ppath, "-g", "./src/generated", "-v", library]
                 if target == "project_conf":
                     args += ["-o", "src-tauri/tauri.conf.json"]
@@ -313,13 +317,13 @@ def part_c(d):
                     for base, _, fs in os.walk(root):
                         for f in fs:
                             p = os.path.join(base, f)
-                            out[os.path.relpath(p, root)] = open(p, "rb").read()
+                            out[os.path.relpath(p, root)] = ("-> " + os.readlink(p)).encode() if os.path.islink(p) else open(p, "rb").read()
                     return out
                 before = snap()
                 r = runner.cli(args, root)
                 after = snap()
                 evs.append({"event": "InitRun", "case": "init%d/%s" % (n, target), "target": target, "library": library if library else "empty",
-                            "project": project, "rejected": r.rc != 0, "mutated": before != after,
+                            "project": "missing" if project.startswith("missing") else project, "how": project, "rejected": r.rc != 0, "mutated": before != after,
                             "changed": sorted(k for k in set(before) | set(after) if before.get(k) != after.get(k))[:6]})
                 shutil.rmtree(root, ignore_errors=True)
     return evs
